@@ -108,6 +108,16 @@ class Script:
             # Would throw error, but Bitcoin Core will read the number of bytes that are there (not what was promised)
             print(f"mismatch between length and consumed bytes {count} vs {length}")
             obj.raw = raw
+        else:
+            # keep the original bytes when the commands would not serialize back to them
+            # (non-minimal pushes): txid, scriptCode and tapleaf hashes are defined over
+            # the bytes that were parsed
+            try:
+                same = obj.raw_serialize() == raw
+            except ValueError:
+                same = False
+            if not same:
+                obj.raw = raw
         return obj
 
     @classmethod
